@@ -1,6 +1,8 @@
 package main
 
 import (
+	"github.com/foxboron/go-uefi/pkcs7"
+	encasn1 "encoding/asn1"
 	"crypto/x509"
 	"crypto/x509/pkix"
 	"fmt"
@@ -9,7 +11,7 @@ import (
 
 func init() {
 	checkers["C16"] = checker{
-		rule: "at check time the OpenSSL CLI signs random contents with fresh RSA keys/certificates under every combination of {smime, cms} x {detached, -nodetach} x {S/MIME capabilities, -nosmimecap} x {certificates, -nocerts} plus cms -cades (additional signed attribute, also with a one-letter issuer) cms -receipt_request_to (several signed attributes the library does not know) and cms -econtent_type (content types other than data, SignedData version 3), with self-signed and CA-issued signing certificates; together with the sbsign / sbvarsign artefacts of the repository; each blob is parsed and verified by the library in the sandboxed worker against the signer's certificate (must succeed: completeness on the supported subset, extracted check_accepts) and against four other certificates (must not), the parsed values are compared with the model's parse, and Attributes.Marshal() of the parsed values is compared with SET||attributes-as-in-blob (extracted check_reencode); non-trivial = the model parses the blob; distinct by (blob, certificate) hash",
+		rule: "at check time the OpenSSL CLI signs random contents with fresh RSA keys/certificates under every combination of {smime, cms} x {detached, -nodetach} x {S/MIME capabilities, -nosmimecap} x {certificates, -nocerts} plus cms -cades (additional signed attribute, also with a one-letter issuer) cms -receipt_request_to (several signed attributes the library does not know) and cms -econtent_type (content types other than data, SignedData version 3), with self-signed and CA-issued signing certificates; together with the sbsign / sbvarsign artefacts of the repository and SignedData carrying two signers (each must verify); each blob is parsed and verified by the library in the sandboxed worker against the signer's certificate (must succeed: completeness on the supported subset, extracted check_accepts) and against four other certificates (must not), the parsed values are compared with the model's parse, and Attributes.Marshal() of the parsed values is compared with SET||attributes-as-in-blob (extracted check_reencode); non-trivial = the model parses the blob; distinct by (blob, certificate) hash",
 		run:  runC16,
 	}
 }
@@ -79,6 +81,22 @@ func runC16(c *Ctx) {
 		}
 	}
 	seeds = append(seeds, fixtureSeeds()...)
+	// SignedData with two signers (as `openssl cms -signer a -signer b` writes): each of them verifies
+	for i := 0; i < c.N(4, 40); i++ {
+		ka, kb := rsaKey(2048, 0), rsaKey(2048, 1)
+		ca := mintCert(ka, genIssuer(rng), genSerial(rng))
+		cb := mintLeaf(kb, genIssuer(rng), pkix.Name{CommonName: fmt.Sprintf("second signer %d", i)}, genSerial(rng))
+		content := randBytes(rng, 1+rng.Intn(100))
+		oid := encasn1.ObjectIdentifier{1, 3, 6, 1, 4, 1, 311, 2, 1, 4}
+		ba, err1 := pkcs7.SignPKCS7(ka, ca, oid, content)
+		bb, err2 := pkcs7.SignPKCS7(kb, cb, oid, content)
+		if err1 != nil || err2 != nil {
+			continue
+		}
+		if g := graftSigner(ba, bb); g != nil {
+			seeds = append(seeds, p7Seed{"two-signers/first", g, ca, ka, nil}, p7Seed{"two-signers/second", g, cb, kb, nil})
+		}
+	}
 	c.Rep.Extra["seeds"] = len(seeds)
 	for _, s := range seeds {
 		impl := evalVerify(c, "C16", "both", s.name, s.blob, s.cert, "signer")
